@@ -95,10 +95,34 @@ func genC02(g *gen, c *sim.Case, tier string) {
 			allowed[r.Intn(12)] = true
 		}
 	}
+	expPhase := r.Chance(1, 5)
+	if expPhase {
+		// a setup task writes records some of which expire, time passes, and only then
+		// the concurrent phase starts: expired records are still physically around in a
+		// lazily expiring backend when the racing operations arrive
+		c.Knobs["exp_phase"] = 1
+		setup := sim.Task{Name: "s0"}
+		for _, k := range keys {
+			d := int64(sim.Pick(r, 5*time.Millisecond, 20*time.Millisecond, 0, 5*time.Millisecond))
+			switch r.Intn(3) {
+			case 0:
+				setup.Ops = append(setup.Ops, sim.Op{K: "create", S: k, V: g.val(), D: d})
+			case 1:
+				setup.Ops = append(setup.Ops, sim.Op{K: "put", S: k, V: g.val(), D: d})
+			default:
+				g.nval++
+				setup.Ops = append(setup.Ops, sim.Op{K: "putmany", S: k, V: fmt.Sprintf("x%d", g.nval), D: d})
+			}
+		}
+		c.Tasks = append(c.Tasks, setup)
+	}
 	// optional preface by task 0 creating some keys so that CAS/Delete races have a target
 	for t := 0; t < nt; t++ {
 		task := sim.Task{Name: fmt.Sprintf("t%d", t)}
 		n := 3 + r.Intn(maxOps)
+		if expPhase {
+			task.Ops = append(task.Ops, sim.Op{K: "jump", D: int64(100 * time.Millisecond)})
+		}
 		for i := 0; i < n; i++ {
 			k := keys[r.Intn(len(keys))]
 			kind := r.Intn(12)
@@ -324,13 +348,21 @@ func genC06(g *gen, c *sim.Case, tier string) {
 		case 1:
 			task.Ops = append(task.Ops, sim.Op{K: "put", S: k, V: g.val(), D: d})
 		default:
-			ks := uniq(pickKeys(r, keys))
+			ks := pickKeys(r, keys)
+			if r.Chance(1, 2) {
+				ks = uniq(ks)
+			}
 			var vs []string
 			for range ks {
 				g.nval++
 				vs = append(vs, fmt.Sprintf("x%d", g.nval))
 			}
-			task.Ops = append(task.Ops, sim.Op{K: "putmany", S: strings.Join(ks, ","), V: strings.Join(vs, ","), D: d})
+			op := sim.Op{K: "putmany", S: strings.Join(ks, ","), V: strings.Join(vs, ","), D: d}
+			if d > 0 && d < int64(time.Hour) && len(ks) > 1 && r.Chance(2, 3) {
+				// mixed batch (also with a key repeated): only some records expire
+				op.E = int64(1 + r.Intn(1<<uint(len(ks))-1))
+			}
+			task.Ops = append(task.Ops, op)
 		}
 	}
 	// optionally a waiter that parks before the expiry and must be released by it
@@ -399,7 +431,11 @@ func genC07(g *gen, c *sim.Case, tier string) {
 				if r.Chance(1, 4) {
 					v = "="
 				}
-				task.Ops = append(task.Ops, sim.Op{K: "put", S: k, V: v})
+				op := sim.Op{K: "put", S: k, V: v}
+				if c.Knobs["backend"] == 0 && r.Chance(1, 6) {
+					op.D = -int64(time.Second) // an already expired record: the key becomes absent (in-memory backend only)
+				}
+				task.Ops = append(task.Ops, op)
 			case 2, 3:
 				ks := uniq(pickKeys(r, keys))
 				var vs []string
@@ -407,7 +443,12 @@ func genC07(g *gen, c *sim.Case, tier string) {
 					g.nval++
 					vs = append(vs, fmt.Sprintf("x%d", g.nval))
 				}
-				task.Ops = append(task.Ops, sim.Op{K: "putmany", S: strings.Join(ks, ","), V: strings.Join(vs, ","), F: r.Chance(1, 2)})
+				pm := sim.Op{K: "putmany", S: strings.Join(ks, ","), V: strings.Join(vs, ","), F: r.Chance(1, 2)}
+				if c.Knobs["backend"] == 0 && r.Chance(1, 6) {
+					pm.D = -int64(time.Second)
+					pm.E = int64(1 + r.Intn(1<<uint(len(ks))-1)) // some of the records are already expired
+				}
+				task.Ops = append(task.Ops, pm)
 			case 4, 5:
 				task.Ops = append(task.Ops, sim.Op{K: "get", S: k})
 				v := g.val()
